@@ -246,10 +246,23 @@ func TestC19(t *testing.T) {
 				pairs = append(pairs, pair{a, b})
 			}
 		}
+		// a list that was never set, one that was set to nothing, one that was emptied: all hold the same pairs - none
+		empties := []nl{nil, {}, make(nl, 0, 4), nl{{Ref: "en", Value: ap.Content("gone")}}[:0]}
+		for _, a := range empties {
+			for _, b := range empties {
+				pairs = append(pairs, pair{a, b})
+			}
+			for _, b := range lists[:8] {
+				pairs = append(pairs, pair{a, b}, pair{b, a})
+			}
+		}
 		for i, pr := range pairs {
 			for j := 0; j < 1; j++ {
 				a, b := pr.a, pr.b
 				cell := fmt.Sprintf("%q == %q", a, b)
+				if len(a) == 0 || len(b) == 0 {
+					cell = fmt.Sprintf("%q(nil=%v,cap=%d) == %q(nil=%v,cap=%d)", a, a == nil, cap(a), b, b == nil, cap(b))
+				}
 				if !r.WantCell(cell) {
 					continue
 				}
@@ -257,6 +270,9 @@ func TestC19(t *testing.T) {
 				want := setOf(a) == setOf(b)
 				// each comparison gets its own copies (with spare capacity): comparing reads both lists, and leaves both as they were
 				spare := func(l nl) nl {
+					if l == nil {
+						return nil // a list that was never set stays one
+					}
 					out := make(nl, len(l), len(l)+2)
 					copy(out, l)
 					return out
